@@ -122,13 +122,21 @@ class Shadow(CallbackListener):
     def library_add_definition(self, l, d): self._add("defs", l, d, "library", getattr(l, "definitions", ()))
     def library_remove_definition(self, l, d): self._rem("defs", l, d, "library", getattr(l, "definitions", ()))
     def definition_add_port(self, d, p): self._add("ports", d, p, "definition", getattr(d, "ports", ()))
-    def definition_remove_port(self, d, p): self._rem("ports", d, p, "definition", getattr(d, "ports", ()))
+    def definition_remove_port(self, d, p):
+        # announced BEFORE it takes effect: the instances of the definition still carry the outer pins of this port's pins
+        if isinstance(d, BaseDefinition) and isinstance(p, BasePort):
+            self._pf("port removal announced after the instances already lost its pins",
+                     all(ip in i.pins for i in d.references for ip in p.pins))
+        self._rem("ports", d, p, "definition", getattr(d, "ports", ()))
     def definition_add_cable(self, d, c): self._add("cables", d, c, "definition", getattr(d, "cables", ()))
     def definition_remove_cable(self, d, c): self._rem("cables", d, c, "definition", getattr(d, "cables", ()))
     def definition_add_child(self, d, i): self._add("children", d, i, "parent", getattr(d, "children", ()))
     def definition_remove_child(self, d, i): self._rem("children", d, i, "parent", getattr(d, "children", ()))
     def port_add_pin(self, p, x): self._add("pins", p, x, "port", getattr(p, "pins", ()))
-    def port_remove_pin(self, p, x): self._rem("pins", p, x, "port", getattr(p, "pins", ()))
+    def port_remove_pin(self, p, x):
+        if isinstance(p, BasePort) and isinstance(x, BaseInnerPin) and p.definition is not None:
+            self._pf("pin removal announced after the instances already lost its outer pin", all(x in i.pins for i in p.definition.references))
+        self._rem("pins", p, x, "port", getattr(p, "pins", ()))
     def cable_add_wire(self, c, w): self._add("wires", c, w, "cable", getattr(c, "wires", ()))
     def cable_remove_wire(self, c, w): self._rem("wires", c, w, "cable", getattr(c, "wires", ()))
 
@@ -476,6 +484,15 @@ def run_case(ctx, i, rng):
                          ("add_library of a DEFAULT-built library to an EDIF netlist", lambda: b.add_library(orphan)),
                          ("definition['.NS']='DEFAULT' on a populated orphan definition", None)]
                 rng.shuffle(steps)
+                # ... and the policy key taken AWAY from a populated parentless element (del / pop): its contents lose theirs too,
+                # every one of those deletions is a data change
+                pc = sdn.Netlist("pc")
+                lc = pc.create_library("lc")
+                dc = lc.create_definition("dc")
+                dc.create_port("pp", pins=1)
+                dc.create_cable("cc", wires=1)
+                steps.append(("del netlist['.NS'] on a populated netlist" if i % 16 == 6 else "netlist.pop('.NS') on a populated netlist",
+                              (lambda: pc.__delitem__(".NS")) if i % 16 == 6 else (lambda: pc.pop(".NS"))))
                 for what, fn in steps:
                     if fn is None:
                         od = sdn.Definition("od")
@@ -491,7 +508,7 @@ def run_case(ctx, i, rng):
                         ctx.count("policy_change_refused")
                     ctx.count("mirror_compares")
                     ctx.count("policy_changes_under_the_mirror")
-                    u_ = Universe.of(*(x for x in (a, b, orphan, extra) if x is not None))
+                    u_ = Universe.of(*(x for x in (a, b, orphan, extra, pc) if x is not None))
                     dd = sh.compare(u_)
                     if dd:
                         ctx.violation("mirror-%s@policy-change" % dd[0], "%s after %s" % (dd[1], what))
